@@ -28,6 +28,8 @@ ERRS = {'NoResponse': 'ENoResponse', 'Response message length too large': 'ETooL
 ATTR_NAMES = {'AName': 'Name', 'AGroup': 'Object Group', 'ASens': 'Sensitive', 'AAlg': 'Cryptographic Algorithm', 'AUnknown': 'Bogus Attribute'}
 ATTR_TAGS = {'AName': 'NAME', 'AGroup': 'OBJECT_GROUP', 'ASens': 'SENSITIVE', 'AAlg': 'CRYPTOGRAPHIC_ALGORITHM'}
 AES = enums.CryptographicAlgorithm.AES
+READ_ONLY_OPS = {'GET', 'GET_ATTRIBUTES', 'GET_ATTRIBUTE_LIST', 'LOCATE', 'QUERY', 'DISCOVER_VERSIONS', 'ENCRYPT', 'DECRYPT', 'SIGN',
+                 'SIGNATURE_VERIFY', 'MAC', 'CHECK'}
 
 
 # ---------------------------------------------------------------------------------------------- abstract -> real
@@ -177,7 +179,8 @@ def coq_body(b, ok=False):
     if k == 'oracle_ro':
         return '(BOpaqueRO %s)' % cb(ok)
     if k == 'oracle_kp':
-        return '(BKeyPair %s [] [])' % cb(ok)
+        pn, vn = RAW_KEYPAIR_NAMES.get(b[1], ([], []))
+        return '(BKeyPair %s %s %s)' % (cb(ok), czl(pn), czl(vn))
     if k == 'oracle_derive':
         return '(BDerive %s 2 [])' % cb(ok)
     if k == 'create':
@@ -268,10 +271,28 @@ def _cp(**kw):
 
 
 E = enums
+
+
+def _wrap_spec(key_uid, encoding=None, names=None):
+    return kdrv.cobjects.KeyWrappingSpecification(
+        wrapping_method=E.WrappingMethod.ENCRYPT,
+        encryption_key_information=kdrv.cobjects.EncryptionKeyInformation(
+            unique_identifier=key_uid, cryptographic_parameters=_cp(block_cipher_mode=E.BlockCipherMode.NIST_KEY_WRAP)),
+        encoding_option=(encoding or E.EncodingOption.NO_ENCODING), attribute_names=names)
+
+
 RAW = {
     'ckp': lambda: kdrv.create_key_pair(),
     'ckp_no_private_mask': lambda: kdrv.create_key_pair(private=[]),
     'ckp_bad_length': lambda: kdrv.create_key_pair(length=1000),
+    'ckp_dup_private_names': lambda: kdrv.create_key_pair(private=[kdrv.attr(AT.CRYPTOGRAPHIC_USAGE_MASK, [E.CryptographicUsageMask.SIGN]),
+                                                                    kdrv.attr(AT.NAME, kdrv.name_value('q1'), 0), kdrv.attr(AT.NAME, kdrv.name_value('q1'), 1)]),
+    'ckp_private_sensitive_twice': lambda: kdrv.create_key_pair(private=[kdrv.attr(AT.CRYPTOGRAPHIC_USAGE_MASK, [E.CryptographicUsageMask.SIGN]),
+                                                                          kdrv.attr(AT.OPERATION_POLICY_NAME, 'default')],
+                                                                 common=[kdrv.attr(AT.CRYPTOGRAPHIC_ALGORITHM, E.CryptographicAlgorithm.RSA),
+                                                                         kdrv.attr(AT.CRYPTOGRAPHIC_LENGTH, 1024), kdrv.attr(AT.OPERATION_POLICY_NAME, 'public')]),
+    'ckp_named': lambda: kdrv.create_key_pair(public=[kdrv.attr(AT.CRYPTOGRAPHIC_USAGE_MASK, [E.CryptographicUsageMask.VERIFY]), kdrv.attr(AT.NAME, kdrv.name_value('n95'), 0)],
+                                              private=[kdrv.attr(AT.CRYPTOGRAPHIC_USAGE_MASK, [E.CryptographicUsageMask.SIGN]), kdrv.attr(AT.NAME, kdrv.name_value('n96'), 0)]),
     'ckp_dup_public_names': lambda: kdrv.create_key_pair(public=[kdrv.attr(AT.CRYPTOGRAPHIC_USAGE_MASK, [E.CryptographicUsageMask.VERIFY]),
                                                                   kdrv.attr(AT.NAME, kdrv.name_value('p1'), 0), kdrv.attr(AT.NAME, kdrv.name_value('p1'), 1)]),
     'derive_no_mask': lambda: kdrv.derive_key(['2'], params=kdrv.cattrs.DerivationParameters(
@@ -304,6 +325,12 @@ RAW = {
         wrapping_method=E.WrappingMethod.ENCRYPT,
         encryption_key_information=kdrv.cobjects.EncryptionKeyInformation(
             unique_identifier='99', cryptographic_parameters=_cp(block_cipher_mode=E.BlockCipherMode.NIST_KEY_WRAP)))),
+    'get_wrapped_ok': lambda: kdrv.get('1', wrap=_wrap_spec('12')),
+    'get_wrapped_placeholder': lambda: kdrv.get(None, wrap=_wrap_spec('12')),
+    'get_wrapped_key_not_active': lambda: kdrv.get('1', wrap=_wrap_spec('1')),
+    'get_wrapped_no_mask': lambda: kdrv.get('1', wrap=_wrap_spec('2')),
+    'get_wrapped_bad_encoding': lambda: kdrv.get('1', wrap=_wrap_spec('12', encoding=E.EncodingOption.TTLV_ENCODING)),
+    'get_wrapped_attr_names': lambda: kdrv.get('1', wrap=_wrap_spec('12', names=['Name'])),
     'get_bad_format': lambda: kdrv.get('1', fmt=E.KeyFormatType.PKCS_8),
     'get_compressed': lambda: kdrv.get('1', compression=E.KeyCompressionType.EC_PUBLIC_KEY_TYPE_UNCOMPRESSED),
     'register_certificate': lambda: kdrv.register(OT.CERTIFICATE),
@@ -337,9 +364,11 @@ RAW = {
     'discover_versions_list': lambda: kdrv.discover_versions([(1, 2), (9, 9)]),
     'query_all': lambda: kdrv.query(list(E.QueryFunction)[:6]),
 }
-# objects the raw items refer to, created after SETUP: 10 = active key that may derive, 11 = key with application specific information
+# objects the raw items refer to, created after SETUP: 10 = active key that may derive, 11 = key with application specific
+# information, 12 = active key that may wrap
 RAW_SETUP = [('derive_base', lambda: kdrv.create(mask=(E.CryptographicUsageMask.DERIVE_KEY,))), ('activate_10', lambda: kdrv.activate('10')),
-             ('asi_key', lambda: kdrv.create(extra=[kdrv.attr(AT.APPLICATION_SPECIFIC_INFORMATION, _asi('ns', 'd0'), 0)], names=['k11']))]
+             ('asi_key', lambda: kdrv.create(extra=[kdrv.attr(AT.APPLICATION_SPECIFIC_INFORMATION, _asi('ns', 'd0'), 0)], names=['k11'])),
+             ('wrap_key', lambda: kdrv.create(mask=(E.CryptographicUsageMask.WRAP_KEY,))), ('activate_12', lambda: kdrv.activate('12'))]
 for _n, _f in RAW_SETUP:
     RAW[_n] = _f
 
@@ -347,6 +376,7 @@ for _n, _f in RAW_SETUP:
 RAW_READ_ONLY = {n for n in RAW if n.split('_')[0] in ('encrypt', 'decrypt', 'sign', 'sigver', 'mac', 'locate', 'get', 'discover', 'query')}
 RAW_KEYPAIR = {n for n in RAW if n.startswith('ckp')}
 RAW_DERIVE = {n for n in RAW if n.startswith('derive_') and n != 'derive_base'}
+RAW_KEYPAIR_NAMES = {'ckp_named': ([95], [96])}
 
 
 def I_raw(name):
@@ -758,19 +788,36 @@ def oracle(ctx, history, req_, pre_dump, obs, twin_factory=None, extra=None):
             alive = alive and not (b[1] is None or str(b[1]) == last_uid)
         if r['ok'] and creating(items[k]):
             last_uid, alive = r['uid'], True
-    # failed items do not disturb the others: the batch without them gives the same answers and the same store
-    if twin_factory is not None and fails and len(fails) < len(res):
-        keep = [k for k, r in enumerate(res) if r['ok']]
-        treq = dict(req_, items=[items[k] for k in keep])
-        tobs = twin_factory().run(treq)
-        same_answers = (tobs['err'] is None and [(r['op'], r['bid'], r['ok'], r['uid']) for r in tobs['results']] ==
-                        [(res[k]['op'], res[k]['bid'], True, res[k]['uid']) for k in keep])
-        if not same_answers or tobs['dump_after'] != obs['dump_after']:
-            wit['twin'] = {'request_without_failed_items': treq, 'results': [{k: r[k] for k in ('op', 'bid', 'ok', 'reason')} for r in tobs['results']],
-                           'same_store': tobs['dump_after'] == obs['dump_after']}
-            v('failed-item-disturbs', 'removing the failed items %s from the batch changes the %s' % (
-                fails, 'answers of the other items' if not same_answers else 'final store'),
-              failed_ops=sorted({res[k]['op'] for k in fails}))
+    # Neither failed items nor items that only read leave anything behind: the batch reduced to its successful
+    # WRITING items gives the same answers for them and ends in the same store.
+    writes = [k for k, r in enumerate(res) if r['ok'] and r['op'] not in READ_ONLY_OPS]
+    if len(writes) < len(res):
+        if not writes:
+            if obs['dump_before'] != obs['dump_after']:
+                v('no-writing-item-but-store-changed', 'no item that may change the store succeeded, yet the store differs after the request',
+                  ops=sorted({r['op'] for r in res}))
+        elif twin_factory is not None:
+            def reduced(keep):
+                treq = dict(req_, items=[items[k] for k in keep])
+                tobs = twin_factory().run(treq)
+                same_answers = (tobs['err'] is None and [(r['op'], r['bid'], r['ok'], r['uid']) for r in tobs['results']] ==
+                                [(res[k]['op'], res[k]['bid'], True, res[k]['uid']) for k in keep])
+                return treq, tobs, same_answers, tobs['dump_after'] == obs['dump_after']
+            treq, tobs, same_answers, same_store = reduced(writes)
+            if not (same_answers and same_store):
+                culprit = 'read-only-item-leaves-trace'
+                dropped = [k for k in range(len(res)) if k not in writes]
+                if fails:
+                    ok_items = [k for k, r in enumerate(res) if r['ok']]
+                    _, _, sa2, ss2 = reduced(ok_items)
+                    if not (sa2 and ss2):
+                        culprit, dropped = 'failed-item-disturbs', fails
+                wit['twin'] = {'request_reduced_to_successful_writing_items': treq,
+                               'results': [{k: r[k] for k in ('op', 'bid', 'ok', 'reason')} for r in tobs['results']], 'same_store': same_store}
+                v(culprit, 'removing the %s items %s from the batch changes the %s' % (
+                    'failed' if culprit == 'failed-item-disturbs' else 'failed and read-only', dropped,
+                    'answers of the other items' if not same_answers else 'final store'),
+                  dropped_ops=sorted({res[k]['op'] for k in dropped}))
     return found
 
 
@@ -862,6 +909,7 @@ class Runner:
         im = self.fresh(self.snapshot2())
         hits, done = [], []
         for r in reqs:
+            r = dict(r, items=[i for i in r['items'] if expressible(i, r['ver'])])
             obs = im.run(r)
 
             def twin_at_same_point(pfx=list(done)):
@@ -944,6 +992,12 @@ def gen_all(run, ctx):
     run.history([req([I_create(), I_ro()], ids=False)], 'corpus:second item lacks id (fixed 4b4567c)')
     run.history([req([I_create(), I_get(), I_activate(), I_get(None, 'GET_ATTRIBUTES'), I_destroy()])], 'corpus:placeholder chain')
     run.history([req([I_get()]), req([I_create()]), req([I_get()])], 'corpus:placeholder does not cross requests')
+    for opt in ['CONTINUE', None]:
+        run.history([req([I_create(names=[33]), I_get(99), I_activate(), I_get()], opt=opt)], 'corpus:placeholder survives a failed item')
+        run.history([req([I_create(names=[34]), I_create(len_ok=False), I_unsup(), I_get(None, 'GET_ATTRIBUTES'), I_destroy()], opt=opt)],
+                    'corpus:placeholder survives a failed item')
+        run.history([req([I_get(1), I_create(names=[35])], opt=opt), req([I_get(1, 'GET_ATTRIBUTES'), I_ro('LOCATE'), I_ro('QUERY'), I_activate(1)], opt=opt)],
+                    'corpus:read-only items then a commit')
     # (1) every menu item alone, under each version
     for ver in VERSIONS:
         for i in (M if not quick else M[::1]):
@@ -1035,6 +1089,16 @@ def gen_sweep(run, ctx):
                 continue
             run.sweep([req([I_raw(n), rng.choice(committing), I_get(1, 'GET_ATTRIBUTES')], ver=ver, opt='CONTINUE')], 'sweep:F S R')
             run.sweep([req([rng.choice(committing), I_raw(n), rng.choice(committing)], ver=ver, opt=rng.choice([None, 'CONTINUE']))], 'sweep:S F S')
+    # items that only read, then items that commit (a read that dirtied a loaded object would be published here)
+    for n in sorted(RAW_READ_ONLY):
+        for ver in [(1, 2)] + ([] if quick else [(1, 4), (2, 0)]):
+            run.sweep([req([I_raw(n), rng.choice(committing)], ver=ver, opt='CONTINUE')], 'sweep:R S')
+            run.sweep([req([rng.choice(committing), I_raw(n), I_get(1), rng.choice(committing), I_get(1, 'GET_ATTRIBUTES')], ver=ver, opt='CONTINUE')], 'sweep:S R R S R')
+    # creating items that fail late (after part of their work), then items that commit
+    for n in sorted(RAW_KEYPAIR | RAW_DERIVE | {x for x in names if x.startswith(('register_', 'create_'))}):
+        for opt in ['CONTINUE']:
+            run.sweep([req([I_raw(n), I_create(names=[97]), I_get(), I_ro('LOCATE')], opt=opt)], 'sweep:C S R')
+            run.sweep([req([I_create(names=[98]), I_raw(n), I_modify(1, 'AName', 0, 99), I_get()], opt=opt)], 'sweep:S C S R')
     for n in names:
         if RAW[n]()[0].name in ('CREATE', 'REGISTER', 'CREATE_KEY_PAIR', 'DERIVE_KEY'):
             for ver in [(1, 2)] + ([] if quick else [(1, 0), (2, 0)]):
